@@ -1,7 +1,7 @@
 //! Block-header codec and the direct CompactSize / Vector / Optional lattice on the repository's
 //! `components/zcash_encoding`.
 
-use super::real::{sha256d, Counting};
+use super::real::{sha256d, Answers, Counting, Scripted};
 use super::spec::{compact_size, compact_size_form, MAX_COMPACT};
 use mc_core::catch;
 use zcash_encoding_local::{CompactSize, Optional, Vector};
@@ -288,4 +288,32 @@ pub fn check_optional(tag: u8) -> Result<String, String> {
         Ok(format!("optional:{}", tag.min(2)))
     })
     .unwrap_or_else(|p| Err(format!("panic: {p}")))
+}
+
+pub fn check_header_reader(b: &[u8], answers: Answers) -> Result<String, String> {
+    let (res0, consumed0) = read(b)?;
+    let (res1, consumed1, shorts) = catch(|| {
+        let mut r = Scripted::new(b, answers);
+        let res = BlockHeader::read(&mut r);
+        (res, r.pos, r.short_reads)
+    })
+    .map_err(|p| format!("BlockHeader::read panicked under reader answers {}: {p}", answers.name()))?;
+    let dev = if shorts > 0 { "short" } else { "noshort" };
+    match (res0, res1) {
+        (Err(_), Err(_)) => Ok(format!("hdr-reader:{dev}:both-reject")),
+        (Err(_), Ok(_)) => Err(format!("header rejected from a slice is accepted under reader answers {}", answers.name())),
+        (Ok(_), Err(e)) => Err(format!("header parses from a slice but fails under reader answers {} ({e})", answers.name())),
+        (Ok(h0), Ok(h1)) => {
+            if consumed0 != consumed1 || extract(&h0) != extract(&h1) {
+                return Err(format!("header fields or consumed length differ under reader answers {}", answers.name()));
+            }
+            if h0.hash() != h1.hash() {
+                return Err(format!("hash() differs when the same bytes arrive through short reads (reader answers {})", answers.name()));
+            }
+            if write(&h0)? != write(&h1)? {
+                return Err(format!("header re-serialisation differs under reader answers {}", answers.name()));
+            }
+            Ok(format!("hdr-reader:{dev}:same"))
+        }
+    }
 }
